@@ -1,4 +1,3 @@
--- FALLBACK copy (documented constants; used only when the translator does not recognise the source)
 -- GENERATED from /repo/crypto/crypto_entropy.c by tools/extractors/c11.py; do not edit
 namespace Percival.Gen.Entropy
 
